@@ -33,7 +33,7 @@ Patterns == 0..3
 Desc(n, inh, p) ==
   [ inh |-> inh,
     sc  |-> [f \in {"s"} |-> IF p \in {1, 3} THEN Names[n] ELSE Unset],
-    li  |-> [f \in {"l"} |-> IF p \in {2, 3} THEN <<Names[n] \o ".1", Names[n] \o ".2", Names[n] \o ".3">> ELSE <<>>],
+    li  |-> [f \in {"l"} |-> IF p \in {2, 3} THEN (IF n % 2 = 0 THEN <<Names[n] \o ".1", Names[n] \o ".2", Names[n] \o ".3">> ELSE <<Names[n] \o ".1">>) ELSE <<>>],
     bo  |-> [f \in {"b"} |-> p = 3] ]
 
 Empty == [sc |-> [f \in {"s"} |-> Unset], li |-> [f \in {"l"} |-> <<>>], bo |-> [f \in {"b"} |-> FALSE]]
